@@ -308,6 +308,12 @@ func familyStream(weights map[string]int, hostile bool, quickN, thoroughN, lengt
 				if weights["hash"] >= 10 && g.chance(0.06) {
 					ops = append(ops, g.hcounterBoundary(1)...)
 				}
+				if weights["hash"] >= 10 && g.chance(0.07) {
+					ops = append(ops, g.noncanonMacro(1, true)...)
+				}
+				if weights["string"] >= 10 && g.chance(0.05) {
+					ops = append(ops, g.noncanonMacro(1, false)...)
+				}
 			}
 			ops = append(ops, g.observeAll(1)...)
 			return History{Ops: ops}
